@@ -37,6 +37,9 @@ type BurstParams struct {
 	Tight      bool `json:"tight"` // only gap 0, sources bus then api-rebalance
 	// YieldLog: every log call of the library is a scheduling point (a logger blocks on I/O)
 	YieldLog bool `json:"yield_log"`
+	// HoldWait: adversarial delay of the stream's wait() goroutines (the one of the session being closed is
+	// woken by the close token) until the rebalance has finished
+	HoldWait bool `json:"hold_wait"`
 }
 
 type notif struct {
@@ -51,7 +54,24 @@ func init() {
 	scenarios["c11_burst"] = func(raw json.RawMessage) *vrt.Scenario {
 		var p BurstParams
 		_ = json.Unmarshal(raw, &p)
-		return &vrt.Scenario{Name: "c11_burst", Main: func() { burstMain(p) }, FreeChoices: true, MaxSteps: 2_000_000, NoTimerAlt: true}
+		return &vrt.Scenario{Name: "c11_burst", Main: func() { burstMain(p) }, FreeChoices: true, MaxSteps: 2_000_000, NoTimerAlt: true, Classify: func(r *vrt.Result) []string {
+			if r.Status == vrt.StatusOK {
+				return nil
+			}
+			m := "execution ended with status " + r.Status.String()
+			if r.Crash != nil {
+				m += ": panic in " + r.Crash.Thread + ": " + r.Crash.Value
+			}
+			if len(r.Blocked) > 0 {
+				m += "; blocked: " + strings.Join(r.Blocked, " | ")
+			}
+			if p.HoldWait && r.Status == vrt.StatusCrash && r.Crash != nil && strings.Contains(r.Crash.Stack, "stream.(*stream).wait") && strings.Contains(r.Crash.Value, "close of closed channel") {
+				// name the mechanism: the failure is identified by it, not by its symptom
+				r.Failures = nil
+				return []string{"[the wait() goroutine of the session that the rebalance closed was delayed past the end of the rebalance: it took the close token with `balancing` already false and stopped the client; the shutdown that followed closed the stop channel a second time] " + m}
+			}
+			return []string{m}
+		}}
 	}
 	register(&Property{
 		ID:        "C11",
@@ -67,6 +87,8 @@ func init() {
 				{Scenario: "c11_burst", Params: mustJSON(BurstParams{Membership: "dynamic", MaxN: n}), Bound: b, Shards: 8},
 				{Scenario: "c11_burst", Params: mustJSON(BurstParams{Membership: "static", MaxN: n}), Bound: b, Shards: 8},
 				{Scenario: "c11_burst", Params: mustJSON(BurstParams{Membership: "dynamic", MaxN: 1, Hold: true}), Bound: b, Shards: 2},
+				{Scenario: "c11_burst", Params: mustJSON(BurstParams{Membership: "dynamic", MaxN: 1, HoldWait: true}), Bound: 0, Shards: 2, Note: "the wait() goroutine of the session being closed is delayed until the rebalance has finished"},
+				{Scenario: "c11_burst", Params: mustJSON(BurstParams{Membership: "static", MaxN: 1, HoldWait: true}), Bound: 0, Shards: 2},
 				{Scenario: "c11_burst", Params: mustJSON(BurstParams{Membership: "dynamic", MaxN: 1, YieldLog: true}), Bound: 1, Shards: 8, Note: "log calls are scheduling points; immediate re-open (dynamic membership): the re-open thread against the tail of the Rebalance() call that armed it, all single deviations (bracketing of the lifecycle callbacks)"},
 				{Scenario: "c11_burst", Params: mustJSON(BurstParams{Membership: "static", MaxN: 2, Tight: true}), Bound: 1, Shards: 8, Note: "two notifications at the same instant (bus + GET /rebalance), all single deviations"},
 				{Scenario: "c12_afterrebalance", Params: mustJSON(AfterRebParams{OldServer: true}), Bound: 0, Shards: 4, Note: "two rebalances in a row against a server below 5.5.0 (serial close): the second one completes"},
@@ -168,6 +190,16 @@ func burstMain(p BurstParams) {
 		vrt.Hold("EventBus|Publish:|$#2", func() bool {
 			for _, h := range hlog[readyIdx:] {
 				if h.name == "BRE" {
+					return true
+				}
+			}
+			return false
+		})
+	}
+	if p.HoldWait {
+		vrt.Hold("stream.(*stream).Open:", func() bool {
+			for _, h := range hlog[readyIdx:] {
+				if h.name == "ARE" {
 					return true
 				}
 			}
